@@ -914,17 +914,25 @@ spif_dlinked_list_map_remove(spif_dlinked_list_t self, spif_obj_t item)
     REQUIRE_RVAL(!SPIF_OBJ_ISNULL(item), (spif_obj_t) NULL);
     if (SPIF_DLINKED_LIST_ITEM_ISNULL(self->head)) {
         return (spif_obj_t) NULL;
-    } else if (SPIF_CMP_IS_EQUAL(SPIF_OBJ_COMP(self->head->data, item))) {
-        tmp = self->head;
-        self->head = self->head->next;
-    } else {
-        for (current = self->head; current->next && !SPIF_CMP_IS_EQUAL(SPIF_OBJ_COMP(current->next->data, item)); current = current->next);
-        if (current->next) {
-            tmp = current->next;
-            current->next = current->next->next;
-        } else {
-            return (spif_obj_t) NULL;
-        }
+    }
+
+    for (current = self->head; current && !SPIF_CMP_IS_EQUAL(SPIF_OBJ_COMP(current->data, item)); current = current->next);
+    if (SPIF_DLINKED_LIST_ITEM_ISNULL(current)) {
+        return (spif_obj_t) NULL;
+    }
+    /* Unlink it in both directions, as spif_dlinked_list_remove() does. */
+    tmp = current;
+    if (!SPIF_DLINKED_LIST_ITEM_ISNULL(tmp->prev)) {
+        tmp->prev->next = tmp->next;
+    }
+    if (!SPIF_DLINKED_LIST_ITEM_ISNULL(tmp->next)) {
+        tmp->next->prev = tmp->prev;
+    }
+    if (tmp == self->head) {
+        self->head = tmp->next;
+    }
+    if (tmp == self->tail) {
+        self->tail = tmp->prev;
     }
     item = tmp->data;
     tmp->data = (spif_obj_t) NULL;
